@@ -65,6 +65,27 @@ F4_FIX = ('escape_bytes_repaired', 'hidc/codegen/asm.py',
           _sub("        if byte in b'\\\\':\n            result += b'\\\\\\\\'\n        if byte in quote:",
                "        if byte in b'\\\\':\n            result += b'\\\\\\\\'\n        elif byte in quote:"))
 
+# every defect the check reports on the unchanged tree, repaired: the check must then be silent
+ALL_REPAIRED = [
+    F4_FIX[1:],
+    ('hidc/codegen/generator.py',                                                                     # F5
+     _sub("        assert isinstance(src_expr.type, ArrayType)\n        array_bubble = yield from self.eval_expr(self.r2, src_expr, keep=True)",
+          "        if not isinstance(src_expr.type, ArrayType):\n"
+          "            raise CodeGenError('Cannot assign to an element of a string', src_expr.span)\n"
+          "        array_bubble = yield from self.eval_expr(self.r2, src_expr, keep=True)")),
+    ('hidc/codegen/generator.py',                                                                     # F7
+     _sub("        if ((self.stack_size + 5) * self.word_size) > self.max_signed:",
+          "        if self.stack_size < 0:\n            raise CodeGenError('Stack size must not be negative', ())\n\n"
+          "        if ((self.stack_size + 5) * self.word_size) > self.max_signed:")),
+    ('hidc/__main__.py',                                                                              # F8
+     _sub("        source = SourceCode.from_file(args.input)\n    except OSError as err:",
+          "        source = SourceCode.from_file(args.input)\n    except (OSError, UnicodeDecodeError) as err:")),
+    ('hidc/lexer/readers.py',                                                                         # chr() overflow
+     _sub("        except ValueError:\n            raise LexerError(\n                f'Invalid unicode codepoint",
+          "        except (ValueError, OverflowError):\n            raise LexerError(\n                f'Invalid unicode codepoint")),
+]
+
+
 def make_copy(root, name, rel, edit):
     dst = os.path.join(root, name)
     os.makedirs(dst)
@@ -222,6 +243,21 @@ def main(argv=None):
             print('  repaired _escape_bytes: %d pairs, %d rejected' % (res['cases'], len(res['kinds'])))
             if res['kinds']:
                 failures.append('AsmText still rejects %d pairs after the F4 repair (false alarm?)' % len(res['kinds']))
+            common.rm(repo)
+        if not only or 'repaired' in only:
+            t1 = time.time()
+            repo = make_copy(root, 'all_repaired', None, None)
+            for rel, edit in ALL_REPAIRED:
+                path = os.path.join(repo, rel)
+                with open(path) as f:
+                    text = f.read()
+                with open(path, 'w') as f:
+                    f.write(edit(text))
+            res = run_check('c10', repo, a.seed)
+            print('  all five reported defects repaired, c10: %d cases, violations %s (%.0fs)' % (
+                res['cases'], res['kinds'], time.time() - t1))
+            if res['kinds']:
+                failures.append('C10 still reports violations on the repaired copy: %s' % res['kinds'])
             common.rm(repo)
         if not only or 'unchanged' in only:
             repo = make_copy(root, 'unchanged', None, None)
